@@ -1,4 +1,265 @@
+//! C11 — each table's constraints accept exactly the rows its operation allows.
+//!
+//! Row-level exhaustive exploration: for every table configuration (operation kind ×
+//! extension degree/reduction × lanes × packed-Horner factor; Poseidon mode × shape) a set of
+//! base traces whose rows satisfy their defining relation is built with the repository's own
+//! trace / preprocessed generators, then every single-row edit from a finite edit alphabet is
+//! applied and the verdict of the real `Air::eval` (driven by Plonky3's debug constraint
+//! builder) is compared with the verdict of an independent reference relation written with
+//! native Plonky3 field / permutation arithmetic.  AIR accepts ⇔ reference accepts.
+//!
+//! Modules: `evalrow` (constraint evaluation at one index), `alu` (ALU table), `simple`
+//! (Const / Public / Recompose: no local constraints), `poseidon` (Poseidon2 / Poseidon1
+//! circuit tables).
+
+mod alu;
+mod evalrow;
+mod poseidon;
+mod simple;
+mod stats;
+
+use std::sync::Mutex;
+
+use p3_baby_bear::BabyBear;
+use p3_circuit_prover::air::AluExtMulKind;
+use p3_field::extension::{BinomialExtensionField, BinomiallyExtendable, QuinticTrinomialExtensionField};
+use p3_goldilocks::Goldilocks;
+use p3_koala_bear::KoalaBear;
+use vpcore::serde_json::json;
+use vpcore::{Ctx, Report, finish};
+
+use crate::alu::BPat;
+use crate::stats::Stats;
+
+pub fn mach(msg: &str) -> ! {
+    vpcore::machinery_error(msg)
+}
+
+pub struct Env<'a> {
+    pub ctx: &'a Ctx,
+    pub report: &'a Report,
+    pub seed: u64,
+    pub task: String,
+}
+impl Env<'_> {
+    pub fn out_of_time(&self) -> bool {
+        self.ctx.out_of_time()
+    }
+    pub fn quick(&self) -> bool {
+        self.ctx.quick()
+    }
+}
+
+pub struct Task {
+    pub name: String,
+    /// rough relative cost, used to start the heavy tasks first
+    pub weight: u64,
+    pub run: Box<dyn Fn(&Env) -> Stats + Send + Sync>,
+}
+
+/// Adds the ALU tasks of one (field, degree, reduction).
+macro_rules! alu_family {
+    ($tasks:ident, $quick:expr, $label:expr, $red:expr, $F:ty, $EF:ty, $D:expr, $kind:expr, $lanes:expr, $kmaxs:expr) => {{
+        for lanes in $lanes {
+            for k_max in $kmaxs {
+                let cfg = format!("alu/{}/lanes{}/kmax{}", $label, lanes, k_max);
+                for (part, pname) in ["mul", "muladd", "add+bool"].iter().enumerate() {
+                    let cfg2 = cfg.clone();
+                    $tasks.push(Task {
+                        name: format!("{cfg}/plain-{pname}"),
+                        weight: ($D * $D * $D * $D * lanes) as u64 * 30,
+                        run: Box::new(move |env| {
+                            alu::run_plain::<$F, $EF, { $D }>(env, &cfg2, $red, $kind, lanes, k_max, part)
+                        }),
+                    });
+                }
+                let max_len = if $quick { k_max + 1 } else { 2 * k_max + 1 };
+                for len in 1..=max_len {
+                    let pats: Vec<BPat> = if $quick {
+                        if len == 2 { vec![BPat::Shared, BPat::Distinct] } else { vec![BPat::Shared] }
+                    } else {
+                        let mut p = vec![BPat::Shared];
+                        if len >= 2 && len <= 4 {
+                            p.push(BPat::Distinct);
+                        }
+                        if len >= 3 {
+                            p.push(BPat::Split2);
+                            p.push(BPat::TwoChains);
+                        }
+                        p
+                    };
+                    for bpat in pats {
+                        let cfg2 = cfg.clone();
+                        $tasks.push(Task {
+                            name: format!("{cfg}/horner/len{len}/{bpat:?}"),
+                            weight: ($D * $D * $D * len * len) as u64,
+                            run: Box::new(move |env| {
+                                alu::run_horner::<$F, $EF, { $D }>(
+                                    env, &cfg2, $red, $kind, lanes, k_max, len, bpat,
+                                )
+                            }),
+                        });
+                    }
+                }
+            }
+        }
+    }};
+}
+
+fn w<F: BinomiallyExtendable<D>, const D: usize>() -> F {
+    F::W
+}
+
+fn build_tasks(quick: bool) -> Vec<Task> {
+    let mut t: Vec<Task> = vec![];
+    type BB = BabyBear;
+    type KB = KoalaBear;
+    type GL = Goldilocks;
+    let lanes_q = [1usize];
+    let lanes_t = [1usize, 2];
+    let kmaxs = [2usize, 3, 4];
+    // quick: every reduction kind is present (base, binomial 2/4/8, quintic); the two
+    // families the prover ships by default (BabyBear D4, KoalaBear quintic) and the base
+    // field get both lane counts and all packing factors.
+    macro_rules! fam {
+        ($label:expr, $red:expr, $F:ty, $EF:ty, $D:expr, $kind:expr, $qlanes:expr, $qk:expr) => {
+            if quick {
+                alu_family!(t, true, $label, $red, $F, $EF, $D, $kind, $qlanes, $qk);
+            } else {
+                alu_family!(t, false, $label, $red, $F, $EF, $D, $kind, lanes_t, kmaxs);
+            }
+        };
+    }
+    let none: [usize; 0] = [];
+    let _ = lanes_q;
+    fam!("BabyBear-D1-base", "base-D1", BB, BB, 1, AluExtMulKind::Base, lanes_t, kmaxs);
+    fam!("KoalaBear-D1-base", "base-D1", KB, KB, 1, AluExtMulKind::Base, none, kmaxs);
+    fam!("Goldilocks-D1-base", "base-D1", GL, GL, 1, AluExtMulKind::Base, none, kmaxs);
+    fam!("Goldilocks-D2-binomial", "binomial-D2", GL, BinomialExtensionField<GL, 2>, 2,
+         AluExtMulKind::Binomial { w: w::<GL, 2>() }, [1usize], [3usize]);
+    fam!("BabyBear-D4-binomial", "binomial-D4", BB, BinomialExtensionField<BB, 4>, 4,
+         AluExtMulKind::Binomial { w: w::<BB, 4>() }, lanes_t, kmaxs);
+    fam!("KoalaBear-D4-binomial", "binomial-D4", KB, BinomialExtensionField<KB, 4>, 4,
+         AluExtMulKind::Binomial { w: w::<KB, 4>() }, none, kmaxs);
+    fam!("BabyBear-D5-binomial", "binomial-D5", BB, BinomialExtensionField<BB, 5>, 5,
+         AluExtMulKind::Binomial { w: w::<BB, 5>() }, none, kmaxs);
+    fam!("KoalaBear-D8-binomial", "binomial-D8", KB, BinomialExtensionField<KB, 8>, 8,
+         AluExtMulKind::Binomial { w: w::<KB, 8>() }, [1usize], [4usize]);
+    fam!("BabyBear-D8-binomial", "binomial-D8", BB, BinomialExtensionField<BB, 8>, 8,
+         AluExtMulKind::Binomial { w: w::<BB, 8>() }, none, kmaxs);
+    fam!("KoalaBear-D5-quintic", "quintic-D5", KB, QuinticTrinomialExtensionField<KB>, 5,
+         AluExtMulKind::QuinticTrinomial, lanes_t, kmaxs);
+    simple::tasks(&mut t, quick);
+    poseidon::tasks(&mut t, quick);
+    t
+}
+
 fn main() {
-    eprintln!("MACHINERY-ERROR: check c11 not built yet");
-    std::process::exit(2);
+    let ctx = Ctx::from_args("C11", "exploration");
+    vpcore::install_quiet_panic_hook();
+    let report = Report::new();
+    let mut tasks = build_tasks(ctx.quick());
+    tasks.sort_by(|a, b| b.weight.cmp(&a.weight));
+
+    // --replay <file>: re-run exactly the task the stored case came from (tasks are small)
+    let mut replaying = None;
+    if let Some(path) = &ctx.replay {
+        let r = vpcore::load_replay(path);
+        let name = r["task"].as_str().unwrap_or_else(|| mach("replay has no task")).to_string();
+        println!("replaying task {name}, case {}", r["case"]);
+        if !tasks.iter().any(|t| t.name == name) {
+            tasks = build_tasks(false);
+        }
+        tasks.retain(|t| t.name == name);
+        if tasks.is_empty() {
+            mach(&format!("replay: unknown task {name}"));
+        }
+        replaying = Some(name);
+    }
+    if let Some(f) = ctx.opt("only") {
+        tasks.retain(|t| t.name.contains(f));
+    }
+
+    let total = Mutex::new(Stats::default());
+    let n_tasks = tasks.len();
+    let done = std::sync::atomic::AtomicUsize::new(0);
+    // longest-processing-time-first list scheduling: workers pull the next heaviest task
+    let next = std::sync::atomic::AtomicUsize::new(0);
+    let workers = std::thread::available_parallelism().map(|n| n.get()).unwrap_or(8).min(16);
+    std::thread::scope(|scope| {
+      for _ in 0..workers {
+        scope.spawn(|| loop {
+        let i = next.fetch_add(1, std::sync::atomic::Ordering::Relaxed);
+        if i >= tasks.len() {
+            break;
+        }
+        let task = &tasks[i];
+        if ctx.out_of_time() {
+            let mut g = total.lock().unwrap();
+            g.cut += 1;
+            g.notes.push(format!("not started (budget): {}", task.name));
+            continue;
+        }
+        let env = Env { ctx: &ctx, report: &report, seed: ctx.seed, task: task.name.clone() };
+        let t0 = std::time::Instant::now();
+        let r = vpcore::quiet_catch(|| (task.run)(&env));
+        match r {
+            Ok(mut st) => {
+                if ctx.opt("timing").is_some() {
+                    eprintln!("{:8.2}s {:>9} cases  {}", t0.elapsed().as_secs_f64(), st.evals, task.name);
+                }
+                if st.cut > 0 {
+                    st.notes.push(format!("cut by budget: {}", task.name));
+                }
+                total.lock().unwrap().merge(st);
+                done.fetch_add(1, std::sync::atomic::Ordering::Relaxed);
+            }
+            Err(p) => mach(&format!("task {} panicked: {p}", task.name)),
+        }
+        });
+      }
+    });
+    let st = total.into_inner().unwrap();
+    let exhaustive = st.cut == 0;
+    println!(
+        "C11: {} tasks ({} complete), {} base traces / {} rows checked in full, {} cases judged, {} non-trivial ({} distinct), {} filler==generator validations",
+        n_tasks,
+        done.load(std::sync::atomic::Ordering::Relaxed),
+        st.base_traces,
+        st.base_rows,
+        st.evals,
+        st.nontrivial,
+        st.distinct_total(),
+        st.validated_against_generator
+    );
+    for (k, v) in &st.histo {
+        println!("  {k}: {v}");
+    }
+    let mut samples = st.samples.clone();
+    samples.push(alu::sample_case());
+    let cov = json!({
+        "evaluations": st.evals,
+        "distinct_nontrivial": st.distinct_total(),
+        "rule": "one case = one concrete small trace: a base trace whose every row satisfies its operation's defining relation (built by the repository's trace generators, checked in full) with the cells of ONE row edited (±1 on one cell, an operand replaced by an alphabet element or by another operation's result, an honestly recomputed Poseidon row on a changed input/flag); the real Air::eval verdict at the two evaluation indices that can see the row is compared with the reference relation. Non-trivial = the reference relation is violated, i.e. the AIR must reject. Distinct = distinct hash of (table configuration, row kind, preprocessed rows, edited row values, predecessor out / successor row).",
+        "samples": samples,
+        "exhaustive": exhaustive,
+        "tasks": n_tasks,
+        "tasks_cut_by_budget": st.cut,
+        "nontrivial_cases": st.nontrivial,
+        "base_traces_checked_in_full": st.base_traces,
+        "base_rows_checked_in_full": st.base_rows,
+        "filler_equals_repo_generator": st.validated_against_generator,
+        "verdict_histogram": st.histo,
+        "per_row_kind_cases_nontrivial": st.per_kind.iter().map(|(k, v)| (k.clone(), json!([v.0, v.1]))).collect::<std::collections::BTreeMap<_, _>>(),
+        "per_table_cases_nontrivial": st.per_cfg.iter().map(|(k, v)| (k.clone(), json!([v.0, v.1]))).collect::<std::collections::BTreeMap<_, _>>(),
+        "notes": st.notes,
+        "replay": replaying,
+    });
+    let assumptions = vec![
+        "Trusted base: Plonky3 0.6.3 field/extension arithmetic, Poseidon permutations and the p3-air DebugConstraintBuilder; p3-poseidon{1,2}-air's per-row permutation trace generator defines the unique valid permutation block for an input (used as reference for the permutation columns).".to_string(),
+        "Bus interactions are outside C11 (the debug builder swallows them); Const/Public/Recompose tables have no local constraints, their clause is 'every row accepted'.".to_string(),
+        "Preprocessed columns are taken from the repository's generators and read as the definition of a row's operation kind / arity / chaining mode (they are verifier-known); the ALU accumulator of a Horner row is the previous row's out, as the AIR defines it (the runner/AIR discrepancy is C10's subject).".to_string(),
+        "Bilinearity argument: the AIR's extension products are sums of coefficient products, so agreement with the native product on all pairs of basis monomials (plus dense elements) extends to all operands; single-cell ±1 edits detect missing or mis-gated constraints, they do not enumerate all invalid rows.".to_string(),
+    ];
+    finish(&ctx, cov, assumptions, &report);
 }
